@@ -158,8 +158,9 @@ func checkTokens(c *core.Ctx, root ast.Vertex, src []byte, ver string, errFree b
 			tiled = false
 			if errFree {
 				extra := ""
-				if prev.Tok != nil && prev.Slot == "OpenHeredocTkn" && t.Slot == "CloseHeredocTkn" && p.StartPos-prevEnd == 1 &&
-					bytes.Contains(prev.Tok.Value, append(append([]byte(nil), src[prevEnd:p.StartPos]...), t.Tok.Value...)) {
+				gapTxt := bytes.TrimLeft(src[prevEnd:p.StartPos], " \t")
+				if prev.Tok != nil && prev.Slot == "OpenHeredocTkn" && t.Slot == "CloseHeredocTkn" && len(gapTxt) == 1 &&
+					bytes.Contains(prev.Tok.Value, append(append([]byte(nil), gapTxt...), t.Tok.Value...)) {
 					extra = "|first-byte-of-closing-label"
 				}
 				c.Violation("tok|gap|"+tokSlot(prev)+">"+slot+extra+"|"+fam, fmt.Sprintf("source bytes %d..%d %q are covered by no token (between %s and %s) although no error was reported", prevEnd, p.StartPos, src[prevEnd:p.StartPos], tokSlot(prev), slot), w)
